@@ -302,6 +302,16 @@ func CheckUserInput(conf Root) error {
 			}
 		}
 	)
+	// event inputs and, recursively, the components of tuple inputs
+	var checkInputs func([]dig.Input)
+	checkInputs = func(inputs []dig.Input) {
+		for _, inp := range inputs {
+			check("input column name", inp.Column)
+			check("referenced table name", inp.Filter.Ref.Table)
+			check("referenced column name", inp.Filter.Ref.Column)
+			checkInputs(inp.Components)
+		}
+	}
 	for _, ig := range conf.Integrations {
 		check("integration name", ig.Name)
 		check("table name", ig.Table.Name)
@@ -312,10 +322,28 @@ func CheckUserInput(conf Root) error {
 		for _, name := range ig.Notification.Columns {
 			check("notification column name", name)
 		}
-		for _, inp := range ig.Event.Inputs {
-			check("referenced column name", inp.Filter.Ref.Column)
+		for _, cols := range ig.Table.Unique {
+			for _, name := range cols {
+				check("unique column name", name)
+			}
 		}
+		for _, cols := range ig.Table.Index {
+			for _, entry := range cols {
+				// a column name that may be followed by ASC or DESC
+				name, dir, _ := strings.Cut(entry, " ")
+				check("index column name", name)
+				switch strings.ToLower(dir) {
+				case "", "asc", "desc":
+				default:
+					if err == nil {
+						err = fmt.Errorf("%q may only be followed by ASC or DESC", entry)
+					}
+				}
+			}
+		}
+		checkInputs(ig.Event.Inputs)
 		for _, bd := range ig.Block {
+			check("referenced table name", bd.Filter.Ref.Table)
 			check("referenced column name", bd.Filter.Ref.Column)
 		}
 	}
